@@ -100,7 +100,7 @@ pub fn drive_c14(a: &Args, w: &Words) {
     {
         let mut sh = Shards::new(&a.out, "c14obj", a.shards);
         let mut rng = Rng::new(a.seed ^ 0x1403);
-        for (i, t) in crate::obj::border_texts().iter().chain(crate::obj::capacity_texts().iter()).enumerate() {
+        for (i, t) in crate::obj::border_texts().iter().chain(crate::obj::capacity_texts().iter()).chain(crate::obj::wrap_texts().iter()).enumerate() {
             if i % 16 == 0 {
                 sh.next_unit();
             }
